@@ -226,3 +226,40 @@ REG.contract(
              "layers_restored": _layers_restored},
     xensures={"Any": {"layers_restored_on_error": _layers_restored}, "TemplateSyntaxError": {"layers_restored_on_error": _layers_restored}},
 )
+
+
+@REG.replay(f"{MOD}:set_provided_context_var")
+def _replay_set_provided(model, ob):
+    """several provides in one process with the same field names in different orders, unusual names and values; what inject()
+    would read back must be exactly the kwargs given, under a new id written into the top layer only"""
+    from django.conf import settings
+    if not settings.configured:
+        from tests.django_test_setup import setup_test_config
+        setup_test_config({"autodiscover": False})
+    from django.template import Context
+    import django_components.perfutil.provide as pv
+    from django_components.provide import get_injected_context_var, set_provided_context_var
+    saved = dict(pv.provide_cache)
+    try:
+        seen = set()
+        for kwargs in ({"a": 1, "b": 2}, {"b": 20, "a": 10}, {"a": 5}, {}, {"b": "x", "c": None, "a": [1]}, {"c": 3, "a": 4, "b": 5}):
+            ctx = Context({"page": 1})
+            ctx.update({"other": 2})
+            lower = [dict(d) for d in ctx.dicts[:-1]]
+            pid = set_provided_context_var(ctx, "key", dict(kwargs))
+            got = get_injected_context_var("comp", ctx, "key")
+            what = None
+            if pid in seen or pid in saved:
+                what = "the provide id is not new"
+            elif got._asdict() != kwargs:
+                what = f"inject reads {got._asdict()}"
+            elif [dict(d) for d in ctx.dicts[:-1]] != lower or set(ctx.dicts[-1]) != {"other", "_DJC_INJECT__key"}:
+                what = f"layers written: {[sorted(d) for d in ctx.dicts]}"
+            seen.add(pid)
+            if what:
+                return {"confirmed": True, "function": "set_provided_context_var", "inputs": {"kwargs": repr(kwargs), "after": [repr(k) for k in seen]},
+                        "expected": f"payload {kwargs} under a new id in the top layer", "observed": what}
+    finally:
+        pv.provide_cache.clear()
+        pv.provide_cache.update(saved)
+    return {"confirmed": False}
